@@ -51,7 +51,9 @@ P = {
             'per-denomination SendEnabled (MsgSetSendEnabled), staking unbonding time / max entries / historical entries, distribution '
             'withdraw_addr_enabled / community tax, gov burn switches, slashing fractions; coinomics and liquidvesting switches and amounts by a '
             'ParameterChangeProposal inside MsgExecLegacyContent; some with an unknown key, refused as a whole; earlier changes are put back '
-            'later), and after each of them a sweep of user transactions that name a BLOCKED ADDRESS (each of the 13 module accounts and 6 '
+            'later; two thirds of the histories run in a FEE-MARKET REGIME other than the default (harness/feeregime.go, shared with C01: x/feemarket '
+            'genesis parameters incl. base fees of 0..100 and MinGasPrice, a finite consensus Block.MaxGas with blocks filled above the gas target '
+            'and empty ones, feemarket / consensus parameter operations on the way; fees of the generated transactions follow max(base fee, MinGasPrice))), and after each of them a sweep of user transactions that name a BLOCKED ADDRESS (each of the 13 module accounts and 6 '
             'precompile addresses, the four accounts with an equality invariant — distribution, bonded, not-bonded, gov — most often) as '
             'recipient / withdraw address / delegator: MsgSend (several denominations), MsgMultiSend, Ethereum transfers and script-contract calls '
             'with value, set-withdraw-address then withdraw, liquidvesting liquidate / redeem, erc20 convert both ways, DAO transfers, vesting '
